@@ -110,6 +110,11 @@ pub fn run(rest: &str) -> String {
             }
             _ => {}
         }
+        // "each": the editor queries after every operation, so the derived queries (parse, index, line tables) are computed
+        // in every intermediate state and have to be re-validated / recomputed by the next operation
+        if spec["each"].as_bool().unwrap_or(false) && root.is_some() {
+            let _ = std::panic::catch_unwind(std::panic::AssertUnwindSafe(|| full_queries(&host, &fs)));
+        }
     }
     let Some(root) = root else {
         return json!({"hist": null, "fresh": null}).to_string();
